@@ -4,7 +4,7 @@ from .progfam import *
 
 def run(tier, seed):
     return run_prog_property(
-        "C02", ["compile"], tier, seed,
+        "C02", ["compile", "deep", "shared"], tier, seed,
         rule="Same behaviours as C01 (the family binds every witness to a variable; in most programs at least one witness is "
              "never or only partly inspected). For every (program, debug mode, witness assignment): satisfy must succeed, "
              "redeem().cmr() = commit().cmr(), encode_to_vec() must be accepted by RedeemNode::decode with the same CMR, and "
